@@ -73,6 +73,13 @@ impl StateMachine<'_> {
         Ok(handled_line)
     }
 
+    /// Do the paths of this file section carry git's prefixes (`a/`, `b/`, ...)? Not under
+    /// `git diff --no-prefix`, where the `diff --git` line names the same path twice: a file in
+    /// a directory called `a` is then `a/file`, not `file`.
+    fn git_paths_have_prefixes(&self) -> bool {
+        self.source == Source::GitDiff && !diff_line_repeats_one_path(&self.diff_line)
+    }
+
     fn should_write_generic_diff_header_header_line(&mut self) -> std::io::Result<bool> {
         // In color_only mode, raw_line's structure shouldn't be changed.
         // So it needs to avoid fn _handle_diff_header_header_line
@@ -107,7 +114,7 @@ impl StateMachine<'_> {
         }
 
         let (mut path_or_mode, file_event) =
-            parse_diff_header_line(&self.line, self.source == Source::GitDiff);
+            parse_diff_header_line(&self.line, self.git_paths_have_prefixes());
 
         utils::path::relativize_path_maybe(&mut path_or_mode, self.config);
         self.minus_file = path_or_mode;
@@ -149,7 +156,7 @@ impl StateMachine<'_> {
         }
         let mut handled_line = false;
         let (mut path_or_mode, file_event) =
-            parse_diff_header_line(&self.line, self.source == Source::GitDiff);
+            parse_diff_header_line(&self.line, self.git_paths_have_prefixes());
 
         utils::path::relativize_path_maybe(&mut path_or_mode, self.config);
         self.plus_file = path_or_mode;
@@ -381,13 +388,24 @@ fn parse_diff_header_line(line: &str, git_diff_name: bool) -> (String, FileEvent
 
 /// Given input like "diff --git a/src/my file.rs b/src/my file.rs"
 /// return Some("src/my file.rs")
+/// `diff --git x x`: the same path twice, i.e. without prefixes (`git diff --no-prefix`).
+fn diff_line_repeats_one_path(line: &str) -> bool {
+    line.strip_prefix("diff --git ").is_some_and(|paths| {
+        paths.len() % 2 == 1
+            && paths.is_char_boundary(paths.len() / 2)
+            && paths.as_bytes()[paths.len() / 2] == b' '
+            && paths[..paths.len() / 2] == paths[paths.len() / 2 + 1..]
+    })
+}
+
 pub fn get_repeated_file_path_from_diff_line(line: &str) -> Option<String> {
     if let Some(line) = line.strip_prefix("diff --git ") {
+        let with_prefixes = !diff_line_repeats_one_path(&format!("diff --git {line}"));
         let line: Vec<&str> = line.graphemes(true).collect();
         let midpoint = line.len() / 2;
         if line.get(midpoint) == Some(&" ") {
-            let first_path = _parse_file_path(&line[..midpoint].join(""), true);
-            let second_path = _parse_file_path(&line[midpoint + 1..].join(""), true);
+            let first_path = _parse_file_path(&line[..midpoint].join(""), with_prefixes);
+            let second_path = _parse_file_path(&line[midpoint + 1..].join(""), with_prefixes);
             if first_path == second_path {
                 return Some(first_path);
             }
